@@ -398,17 +398,37 @@ def check_case(ctx, case, upath, rng):
                         ib = bytearray(model.dump(mt, cur, cfg)[0])
                         ib[:len(raw_in)] = raw_in
                         member_value, _ = model.parse(mt, bytes(ib), 0, cfg)
-                    if route in ("nested-via-proxy", "nested-deep", "nested-union"):
-                        tgt = getattr(u, lf._name)
-                        ll = lf.type
-                        for j in fj[:-1]:
-                            tgt = getattr(tgt, ll.__fields__[j]._name)
-                            ll = ll.__fields__[j].type
-                        setattr(tgt, glf._name, libv)
-                    elif upath and upath[0].startswith("#") and rng.random() < 0.5:
-                        setattr(obj, glf._name, libv)  # through both levels of attribute forwarding
-                    else:
-                        setattr(u, glf._name, libv)
+                    via_outer = bool(upath and upath[0].startswith("#") and rng.random() < 0.5)
+
+                    def do_assign(value, route=route, lf=lf, fj=fj, glf=glf, via_outer=via_outer):
+                        if route in ("nested-via-proxy", "nested-deep", "nested-union"):
+                            tgt = getattr(u, lf._name)
+                            ll = lf.type
+                            for j in fj[:-1]:
+                                tgt = getattr(tgt, ll.__fields__[j]._name)
+                                ll = ll.__fields__[j].type
+                            setattr(tgt, glf._name, value)
+                        elif via_outer:
+                            setattr(obj, glf._name, value)  # through both levels of attribute forwarding
+                        else:
+                            setattr(u, glf._name, value)
+
+                    if gf["t"]["k"] == "int" and not gf.get("bits") and U.size is not None and rng.random() < 0.25:
+                        # a refused assignment below a member changes nothing either
+                        bad = 1 << (8 * model.size_of(gf["t"], cfg))
+                        try:
+                            do_assign(bad)
+                            viol("assign", "out-of-range-assignment-below-a-union-member-accepted", member=mf["name"],
+                                 value=bad, route=route)
+                            break
+                        except Exception:  # noqa: BLE001
+                            ctx.event("refused_nested_assignments")
+                            ctx.cell("route:refused-nested-assignment")
+                        if not judge_state(ctx, case, cfgd, cfg, unode, U, u, shadow,
+                                           lambda k, s_, **kw: viol(k, s_, history=hist, route=route, **kw),
+                                           f"after-refused-nested-assignment:{mf['name']}"):
+                            break
+                    do_assign(libv)
             except Exception as e:  # noqa: BLE001
                 if isinstance(e, UnicodeDecodeError):
                     # the new bytes are not valid UTF-16 for a wchar member of the union: no state to compare
